@@ -414,3 +414,49 @@ pub fn sample_hex(label: &str, b: &[u8]) -> Value {
 pub fn tape_hex(b: &[u8]) -> String {
     hex(b)
 }
+
+/// `Command::output()` for the long external steps (cargo builds, probe programs): the child's output is collected while the
+/// no-progress watchdog is told that the run is alive (a build can take minutes on a loaded machine). A child that is still running
+/// after `max_secs` is killed and reported as an infrastructure problem, never as a violation.
+pub fn output_with_progress(cmd: &mut std::process::Command, max_secs: u64, pipe_stderr: bool) -> std::io::Result<std::process::Output> {
+    use std::io::Read;
+    use std::process::Stdio;
+    // (stderr is left alone when the caller redirected it: the closed-stderr pass of C18 hands the child /dev/full)
+    cmd.stdin(Stdio::null()).stdout(Stdio::piped());
+    if pipe_stderr {
+        cmd.stderr(Stdio::piped());
+    }
+    let mut child = cmd.spawn()?;
+    let mut so = child.stdout.take();
+    let mut se = child.stderr.take();
+    let t1 = std::thread::spawn(move || {
+        let mut v = Vec::new();
+        if let Some(s) = so.as_mut() {
+            let _ = s.read_to_end(&mut v);
+        }
+        v
+    });
+    let t2 = std::thread::spawn(move || {
+        let mut v = Vec::new();
+        if let Some(s) = se.as_mut() {
+            let _ = s.read_to_end(&mut v);
+        }
+        v
+    });
+    let start = std::time::Instant::now();
+    let status = loop {
+        crate::alloc::progress();
+        if let Some(st) = child.try_wait()? {
+            break st;
+        }
+        if start.elapsed().as_secs() > max_secs {
+            let _ = child.kill();
+            let _ = child.wait();
+            return Err(std::io::Error::new(std::io::ErrorKind::TimedOut, format!("child process still running after {} s: killed", max_secs)));
+        }
+        // short-lived children (probe programs) are noticed quickly, long builds are polled five times a second
+        std::thread::sleep(std::time::Duration::from_millis(if start.elapsed().as_millis() < 300 { 2 } else { 200 }));
+    };
+    crate::alloc::progress();
+    Ok(std::process::Output { status, stdout: t1.join().unwrap_or_default(), stderr: t2.join().unwrap_or_default() })
+}
